@@ -47,7 +47,10 @@ func timedCall(w *W, label string, d time.Duration, timeoutErr error, fn func() 
 		}
 	}
 	if d > 1 {
-		w.Sleep(d - 1)
+		// (absolute: the event injected during the call may have taken time)
+		if rem := c.InvTime + d - 1 - w.Now(); rem > 0 {
+			w.Sleep(rem)
+		}
 		w.Settle()
 		if c.Returned() {
 			if c.Err == timeoutErr {
@@ -57,7 +60,9 @@ func timedCall(w *W, label string, d time.Duration, timeoutErr error, fn func() 
 			}
 			return c, true
 		}
-		w.Sleep(1)
+		if rem := c.InvTime + d - w.Now(); rem > 0 {
+			w.Sleep(rem)
+		}
 	} else {
 		w.Sleep(d)
 	}
@@ -215,7 +220,23 @@ func c18Run(w *W) {
 			w.Delivery++
 		}
 		w.Op("%s Recv with deadline %v (peer %s)", kind, dd, peerMode)
-		c, blocked := timedCall(w, kind+".Recv", dd, mangos.ErrRecvTimeout, func() (interface{}, error) { return obj.Recv() }, leave)
+		during := leave
+		if dd >= time.Millisecond && w.Choose(simrt.SProg, 3) == 0 {
+			// something else happens to the socket while the Recv waits: its
+			// receive queue is resized (twice). The deadline stays where it was.
+			during = func() {
+				leave()
+				for k := 0; k < 2; k++ {
+					w.Sleep(dd / 4)
+					if err := s.SetOption(mangos.OptionReadQLen, qlen+2+k); err != nil {
+						return
+					}
+				}
+				w.Op("receive queue resized twice during the wait")
+				w.Probe("queue-resized-during-timed-recv")
+			}
+		}
+		c, blocked := timedCall(w, kind+".Recv", dd, mangos.ErrRecvTimeout, func() (interface{}, error) { return obj.Recv() }, during)
 		if w.Failed() {
 			return
 		}
